@@ -598,7 +598,7 @@ func writeWakeSlices(w *bufio.Writer, s *vt.Sched, tag string) int {
 	workers := map[int]bool{}
 	for _, ev := range s.Log {
 		if ev.Kind == "ad:subscribe" {
-			return 0
+			return writeWakeSlicesShared(w, s, tag)
 		}
 		if si := siteTab[ev.Site]; si.Field == "curProcessing" && ev.Owner != 0 {
 			workers[ev.Owner] = true
